@@ -160,7 +160,7 @@ func (h *hostPool) log(vs ...interface{}) {
 	h.trace = append(h.trace, "("+strings.Join(p, ",")+")")
 }
 
-var hostNames = []string{"probe", "probe2", "hvar", "hpair", "hpanic", "hnone", "hfix3", "hzero", "hid", "mkdur", "mkvals", "mkints", "mkptr"}
+var hostNames = []string{"probe", "probe2", "hvar", "hpair", "hpanic", "hnone", "hfix3", "hzero", "hid", "mkdur", "mkvals", "mkints", "mkptr", "hsend"}
 
 func (h *hostPool) define(e *env.Env) {
 	e.Define("probe", func(x interface{}) interface{} { h.log(x); return x })
@@ -172,6 +172,7 @@ func (h *hostPool) define(e *env.Env) {
 	e.Define("hfix3", func(a, b, c interface{}) interface{} { h.log(a, b, c); return c })
 	e.Define("hzero", func() interface{} { h.log(); return int64(7) })
 	e.Define("hid", func(x interface{}) interface{} { return x })
+	e.Define("hsend", func(c chan interface{}, v interface{}) { c <- v }) // a Go function to start with `go` (directed programs only)
 	// Go values of named non-struct types that carry methods (used by impl-only programs; not in the model)
 	e.Define("mkdur", func() time.Duration { return 1500 * time.Millisecond })
 	e.Define("mkvals", func() url.Values { return url.Values{"k": {"one", "two"}} })
